@@ -20,7 +20,21 @@ Supported subset — nothing more:
     for a translated method, string literals only where a mutation reason is expected ("" / "rollback" /
     "replication_mutation" / "random_mutation") or as dropped free text;
   * the search idiom `for m in reversed(self._mutations): if <cond m>: return <expr m>` followed by `return <bool>`;
-  * console prints, docstrings and `if …: print(…)` blocks are dropped.
+  * console prints, `logger.*(...)` / `logging.*(...)` calls (logger = a module-level `logging.getLogger(...)`),
+    docstrings and `if …:` blocks consisting only of those are dropped — provided their arguments are pure formatting
+    (no calls except len/str/repr/format/type/sorted/list);
+  * module-level and class-level constants (`_TAG`, `self._ROLLBACK_REASON`, `_GENE_FIELDS`) are resolved to their
+    VALUES (from the AST when literal, otherwise from the imported module handed in by the harness);
+  * private helpers are resolved through the call graph and INLINED: a predicate used as `if [not] self._h(args):`
+    is inlined with every `return e` of the helper continuing into the corresponding branch of the caller (early
+    returns, callback call and `mutation.approved = …` inside the helper included; parameters are bound by reference);
+    a pure builder `self._h(args)` / `Genome._h(args)` whose body is a single `return <expr>` is inlined as that
+    expression (static methods included);
+  * record update spelled as `Gene(name=g.name, …)`, as `Gene(**d)` for a dict `d` built by a literal or by
+    `{n: getattr(g, n) for n in <constant tuple of field names>}` and item assignments, or as
+    `dataclasses.replace(g, value=v)` — all the same structure literal;
+  * extra trailing parameters with a constant default are bound to that default (the modelled call path);
+  * new methods, `__repr__`, annotations and docstrings are not looked at.
 `replicate`: the keyword arguments `allow_mutations` / `on_mutation` / `mutation_rate` / `genes` of the `Genome(...)`
 constructor call (any other argument but `silent` leaves the subset), the loop `for a, b in mutations.items(): child.mutate(a, b, "replication_mutation")`, and a scan that
 the method writes nothing but locals, `child._generation`, `child._parent_hash`, `child._expression[...]`, and calls
@@ -79,7 +93,26 @@ def is_self_attr(n, attr=None):
 
 def is_print(st):
     return (isinstance(st, ast.Expr) and isinstance(st.value, ast.Call) and isinstance(st.value.func, ast.Name)
-            and st.value.func.id == "print")
+            and st.value.func.id == "print" and pure_args(st.value)) or is_log(st)
+
+
+PURE_FUNCS = {"len", "str", "repr", "format", "type", "sorted", "list", "int", "bool"}
+LOGGERS: set = set()          # names bound at module level to logging.getLogger(...); filled per source
+
+
+def pure_args(call):
+    for a in list(call.args) + [k.value for k in call.keywords]:
+        for sub in ast.walk(a):
+            if isinstance(sub, ast.Call) and not (isinstance(sub.func, ast.Name) and sub.func.id in PURE_FUNCS):
+                return False
+    return True
+
+
+def is_log(st):
+    if not (isinstance(st, ast.Expr) and isinstance(st.value, ast.Call) and isinstance(st.value.func, ast.Attribute)):
+        return False
+    root = st.value.func.value
+    return isinstance(root, ast.Name) and (root.id in LOGGERS or root.id == "logging") and pure_args(st.value)
 
 
 def is_doc(st):
@@ -123,8 +156,18 @@ def param_type(method, name, ann):
     return None
 
 
+def literal(node):
+    """python value of a literal constant / tuple of literal constants, else raises ValueError"""
+    if isinstance(node, ast.Constant) and isinstance(node.value, (str, bool, int)) or \
+            (isinstance(node, ast.Constant) and node.value is None):
+        return node.value
+    if isinstance(node, ast.Tuple):
+        return tuple(literal(e) for e in node.elts)
+    raise ValueError
+
+
 class Translator:
-    def __init__(self, src: str):
+    def __init__(self, src: str, module=None):
         tree = ast.parse(src)
         cls = [n for n in tree.body if isinstance(n, ast.ClassDef) and n.name == CLASS]
         if len(cls) != 1:
@@ -132,6 +175,56 @@ class Translator:
         self.fns = {n.name: n for n in cls[0].body if isinstance(n, ast.FunctionDef)}
         self.calls: dict[str, set] = {}
         self.cur = None
+        self.depth = 0
+        # constants: literal ones from the AST, computed ones from the imported module (same source)
+        self.mconst, self.cconst = {}, {}
+        LOGGERS.clear()
+        for scope, body, obj in ((self.mconst, tree.body, module), (self.cconst, cls[0].body,
+                                                                     getattr(module, CLASS, None))):
+            for n in body:
+                if isinstance(n, ast.Assign) and len(n.targets) == 1 and isinstance(n.targets[0], ast.Name):
+                    name = n.targets[0].id
+                    if scope is self.mconst and isinstance(n.value, ast.Call) \
+                            and ast.unparse(n.value.func) in ("logging.getLogger", "getLogger"):
+                        LOGGERS.add(name)
+                        continue
+                    try:
+                        scope[name] = literal(n.value)
+                    except ValueError:
+                        v = getattr(obj, name, None) if obj is not None else None
+                        if isinstance(v, (str, bool)) or (isinstance(v, tuple) and all(isinstance(x, str) for x in v)):
+                            scope[name] = v
+
+    def const_of(self, n):
+        """(found, value) for a name / self.X / Genome.X that denotes a constant"""
+        if isinstance(n, ast.Name) and n.id in self.mconst:
+            return True, self.mconst[n.id]
+        if isinstance(n, ast.Attribute) and isinstance(n.value, ast.Name) and n.value.id in ("self", CLASS, "cls") \
+                and n.attr in self.cconst:
+            return True, self.cconst[n.attr]
+        return False, None
+
+    def var(self, name):
+        return f"v_{name}" if self.depth == 0 else f"h{self.depth}_{name}"
+
+    def helper(self, call):
+        """the FunctionDef of a private helper called as self.h(...) / Genome.h(...), with its parameter names"""
+        f = call.func
+        if not (isinstance(f, ast.Attribute) and isinstance(f.value, ast.Name) and f.value.id in ("self", CLASS)):
+            return None
+        fn = self.fns.get(f.attr)
+        if fn is None or f.attr in METHODS:
+            return None
+        decos = [ast.unparse(d) for d in fn.decorator_list]
+        a = fn.args
+        if a.vararg or a.kwarg or a.kwonlyargs or a.posonlyargs or any(d != "staticmethod" for d in decos):
+            bad(call, f"helper {f.attr}: unsupported signature")
+        params = [x.arg for x in (a.args if "staticmethod" in decos else a.args[1:])]
+        if call.keywords or len(call.args) != len(params):
+            bad(call, f"helper {f.attr}: arguments")
+        if self.depth >= 4:
+            bad(call, f"helper nesting too deep at {f.attr}")
+        return fn, params
 
     # ------------------------------------------------------------------------------------------------ signatures
     def sig(self, m):
@@ -142,12 +235,27 @@ class Translator:
         if a.vararg or a.kwarg or a.kwonlyargs or a.posonlyargs or fn.decorator_list:
             bad(fn, f"signature of {m}")
         ps = []
-        for arg in a.args[1:]:
+        want = FIXED[m]
+        self.extra = {}
+        ndef = len(a.defaults)
+        args = a.args[1:]
+        for i, arg in enumerate(args):
+            if i >= len(want):
+                # a new trailing parameter: the modelled call path leaves it at its default
+                di = i - (len(args) - ndef)
+                if di < 0:
+                    bad(fn, f"new parameter {arg.arg} of {m} without a default")
+                try:
+                    literal(a.defaults[di])
+                except ValueError:
+                    bad(fn, f"default of the new parameter {arg.arg} of {m} is not a constant")
+                self.extra[arg.arg] = a.defaults[di]
+                continue
             t = param_type(m, arg.arg, arg.annotation)
             if t is None:
                 bad(fn, f"parameter {arg.arg} of {m}: unsupported annotation")
             ps.append((arg.arg, t))
-        if [t for _, t in ps] != [t for _, t in FIXED[m]]:
+        if [t for _, t in ps] != [t for _, t in want]:
             bad(fn, f"signature of {m} differs from the modelled one")
         return ps
 
@@ -162,7 +270,73 @@ class Translator:
             return "()", "text"
         bad(n, "string literal")
 
+    def gene_fields_of(self, code):
+        return {py: (("()" if lean is None else f"{code}.{lean}"), ft) for py, lean, ft in GENE_FIELDS}
+
+    def build(self, n, ctor, given_codes):
+        """structure literal from {python field: (code, type)}"""
+        table, dflt = (GENE_FIELDS, GENE_DEFAULT) if ctor == "gene" else (MUT_FIELDS, MUT_DEFAULT)
+        names = [py for py, _, _ in table]
+        for k_ in given_codes:
+            if k_ not in names:
+                bad(n, f"unknown field {k_}")
+        vals = []
+        for py, lean, ft in table:
+            if py in given_codes:
+                c, t = given_codes[py]
+                if t != ft:
+                    bad(n, f"field {py}: a {t} where a {ft} is expected")
+            elif py in dflt:
+                c = dflt[py]
+            else:
+                bad(n, f"field {py} missing")
+            if lean is not None:
+                vals.append(paren(c))
+        return "⟨" + ", ".join(vals) + "⟩", ctor
+
     def ex(self, n, env, want=None):
+        found, cv = self.const_of(n)
+        if found and not (isinstance(n, ast.Name) and n.id in env["locals"]):
+            if isinstance(cv, (str, bool)):
+                return self.ex(ast.copy_location(ast.Constant(cv), n), env, want)
+            bad(n, f"constant {ast.unparse(n)} of type {type(cv).__name__} used as a value")
+        if isinstance(n, ast.Name) and n.id in env["locals"] and env["locals"][n.id][1] == "const":
+            return self.ex(env["locals"][n.id][0], env, want)
+        if isinstance(n, ast.Name) and n.id in env["locals"] and env["locals"][n.id][1] == "genedict":
+            bad(n, f"dict {n.id} used as a value")
+        if isinstance(n, ast.Call):
+            fsrc = ast.unparse(n.func)
+            # Gene(**d)
+            if fsrc == "Gene" and not n.args and len(n.keywords) == 1 and n.keywords[0].arg is None \
+                    and isinstance(n.keywords[0].value, ast.Name) \
+                    and env["locals"].get(n.keywords[0].value.id, (None, None))[1] == "genedict":
+                return self.build(n, "gene", dict(env["locals"][n.keywords[0].value.id][0]))
+            # dataclasses.replace(g, field=…)
+            if fsrc in ("replace", "dataclasses.replace") and len(n.args) == 1:
+                c0, t0 = self.ex(n.args[0], env)
+                if t0 != "gene":
+                    bad(n, f"replace on a {t0}")
+                given = self.gene_fields_of(paren(c0))
+                for kw in n.keywords:
+                    if kw.arg is None or kw.arg not in given:
+                        bad(n, f"replace: field {kw.arg}")
+                    given[kw.arg] = self.ex(kw.value, env, want=given[kw.arg][1])
+                return self.build(n, "gene", given)
+            # pure builder helper: body is a single `return <expr>`
+            h = self.helper(n)
+            if h is not None:
+                fn, params = h
+                stmts = [x for x in fn.body if not is_doc(x)]
+                if len(stmts) != 1 or not isinstance(stmts[0], ast.Return) or stmts[0].value is None:
+                    bad(n, f"helper {fn.name} used as a value is not a single return")
+                env2 = {"locals": {}, "present": {}, "cb": None, "retk": []}
+                for pn, a in zip(params, n.args):
+                    env2["locals"][pn] = self.ex(a, env)
+                self.depth += 1
+                try:
+                    return self.ex(stmts[0].value, env2, want)
+                finally:
+                    self.depth -= 1
         if isinstance(n, ast.Constant):
             if isinstance(n.value, bool):
                 return ("true" if n.value else "false"), "bool"
@@ -217,8 +391,7 @@ class Translator:
                 return (core if isinstance(op, ast.Eq) else f"!{core}"), "bool"
             bad(n, f"comparison {ast.unparse(n)}")
         if isinstance(n, ast.Call) and isinstance(n.func, ast.Name) and n.func.id in ("Gene", "Mutation"):
-            table, dflt, ctor = ((GENE_FIELDS, GENE_DEFAULT, "gene") if n.func.id == "Gene"
-                                 else (MUT_FIELDS, MUT_DEFAULT, "mut"))
+            table, ctor = (GENE_FIELDS, "gene") if n.func.id == "Gene" else (MUT_FIELDS, "mut")
             given = {}
             if len(n.args) > len(table):
                 bad(n, "too many positional arguments")
@@ -228,19 +401,8 @@ class Translator:
                 if kw.arg is None or kw.arg in given or kw.arg not in [py for py, _, _ in table]:
                     bad(n, f"keyword {kw.arg} of {n.func.id}")
                 given[kw.arg] = kw.value
-            vals = []
-            for py, lean, ft in table:
-                if py in given:
-                    c, t = self.ex(given[py], env, want=ft)
-                    if t != ft:
-                        bad(n, f"{n.func.id}.{py}: a {t} where a {ft} is expected")
-                elif py in dflt:
-                    c = dflt[py]
-                else:
-                    bad(n, f"{n.func.id}: {py} missing")
-                if lean is not None:
-                    vals.append(paren(c))
-            return "⟨" + ", ".join(vals) + "⟩", ctor
+            ftype = {py: ft for py, _, ft in table}
+            return self.build(n, ctor, {py: self.ex(a, env, want=ftype[py]) for py, a in given.items()})
         bad(n, f"expression {type(n).__name__}: {ast.unparse(n)[:60]}")
 
     def cb_test(self, test):
@@ -310,9 +472,27 @@ class Translator:
                 return (f"{pad}match findGene g.genes {paren(c)} with\n"
                         f"{pad}| none =>\n{self.body(st.body, copy.deepcopy(env), ind + 2)}\n"
                         f"{pad}| some {var} =>\n{self.body(rest, env2, ind + 2)}")
-            cbt = self.cb_test(t)
             then_b = st.body + ([] if returns(st.body) else rest)
             else_b = st.orelse + ([] if (st.orelse and returns(st.orelse)) else rest)
+            # `if [not] self._helper(args):` -> inline the helper, its returns continue into the two branches
+            neg, core = False, t
+            while isinstance(core, ast.UnaryOp) and isinstance(core.op, ast.Not):
+                neg, core = not neg, core.operand
+            if isinstance(core, ast.Call) and self.helper(core) is not None:
+                fn, params = self.helper(core)
+                env2 = {"locals": {}, "present": dict(env["present"]), "cb": env.get("cb"),
+                        "retk": env.get("retk", []) + [((else_b, then_b) if neg else (then_b, else_b), copy.deepcopy(env))]}
+                for pn, a in zip(params, core.args):
+                    if isinstance(a, ast.Name) and a.id in env["locals"]:
+                        env2["locals"][pn] = env["locals"][a.id]          # by reference (same Lean variable)
+                    else:
+                        env2["locals"][pn] = self.ex(a, env)
+                self.depth += 1
+                try:
+                    return self.body(list(fn.body), env2, ind)
+                finally:
+                    self.depth -= 1
+            cbt = self.cb_test(t)
             if cbt is not None:
                 some_b, none_b = (then_b, else_b) if cbt else (else_b, then_b)
                 env_some = copy.deepcopy(env)
@@ -325,6 +505,26 @@ class Translator:
                 bad(t, f"if on a {ty}")
             return (f"{pad}if {paren(c)} then\n{self.body(then_b, copy.deepcopy(env), ind + 2)}\n"
                     f"{pad}else\n{self.body(else_b, copy.deepcopy(env), ind + 2)}")
+        if isinstance(st, ast.Return) and env.get("retk"):
+            # return from an inlined predicate: continue in the caller
+            (t_b, f_b), caller = env["retk"][-1]
+            if st.value is None:
+                bad(st, "return without a value in a predicate")
+            cont = copy.deepcopy(caller)
+            cont["present"] = {k_: v_ for k_, v_ in caller["present"].items() if env["present"].get(k_) == v_}
+            cont["cb"] = env.get("cb")
+            saved = self.depth
+            self.depth = len(cont.get("retk", []))
+            try:
+                if isinstance(st.value, ast.Constant) and isinstance(st.value.value, bool):
+                    return self.body(t_b if st.value.value else f_b, cont, ind)
+                c, ty = self.ex(st.value, env)
+                if ty != "bool":
+                    bad(st, f"predicate returns a {ty}")
+                return (f"{pad}if {paren(c)} then\n{self.body(t_b, copy.deepcopy(cont), ind + 2)}\n"
+                        f"{pad}else\n{self.body(f_b, copy.deepcopy(cont), ind + 2)}")
+            finally:
+                self.depth = saved
         if isinstance(st, ast.Return):
             v = st.value
             if v is None:
@@ -355,7 +555,63 @@ class Translator:
             return f"{pad}{self.ret(env, paren(c))}"
         if isinstance(st, ast.Assign) and len(st.targets) == 1:
             tg, v = st.targets[0], st.value
+            if isinstance(tg, ast.Name) and isinstance(v, (ast.DictComp, ast.Dict)):
+                # a dict of Gene fields, kept symbolically (consumed by Gene(**d))
+                if any(t_ == "genedict" for _, t_ in env["locals"].values()):
+                    bad(st, "second field dict")
+                d = {}
+                if isinstance(v, ast.Dict):
+                    for k_, e_ in zip(v.keys, v.values):
+                        if k_ is None:
+                            bad(st, "dict unpacking")
+                        ok_, kv = (True, k_.value) if isinstance(k_, ast.Constant) else self.const_of(k_)
+                        if not ok_ or not isinstance(kv, str):
+                            bad(st, "dict key is not a constant string")
+                        ft = {py: f_ for py, _, f_ in GENE_FIELDS}.get(kv)
+                        if ft is None:
+                            bad(st, f"dict key {kv!r} is not a Gene field")
+                        d[kv] = self.ex(e_, env, want=ft)
+                else:
+                    g0 = v.generators
+                    if len(g0) != 1 or g0[0].ifs or g0[0].is_async or not isinstance(g0[0].target, ast.Name):
+                        bad(st, "dict comprehension shape")
+                    cvn = g0[0].target.id
+                    ok_, names = self.const_of(g0[0].iter)
+                    if not ok_:
+                        try:
+                            names = literal(g0[0].iter)
+                        except ValueError:
+                            bad(st, f"dict comprehension over {ast.unparse(g0[0].iter)}")
+                    if not (isinstance(names, tuple) and all(isinstance(x, str) for x in names)):
+                        bad(st, "dict comprehension over a non-constant")
+                    val = v.value
+                    if not (isinstance(v.key, ast.Name) and v.key.id == cvn and isinstance(val, ast.Call)
+                            and ast.unparse(val.func) == "getattr" and len(val.args) == 2
+                            and isinstance(val.args[1], ast.Name) and val.args[1].id == cvn):
+                        bad(st, "dict comprehension is not {n: getattr(g, n) for n in FIELDS}")
+                    c0, t0 = self.ex(val.args[0], env)
+                    if t0 != "gene":
+                        bad(st, f"getattr on a {t0}")
+                    allf = self.gene_fields_of(paren(c0))
+                    for nm_ in names:
+                        if nm_ not in allf:
+                            bad(st, f"{nm_!r} is not a Gene field")
+                        d[nm_] = allf[nm_]
+                env = copy.deepcopy(env)
+                env["locals"][tg.id] = (d, "genedict")
+                return self.body(rest, env, ind)
+            if isinstance(tg, ast.Subscript) and isinstance(tg.value, ast.Name) \
+                    and env["locals"].get(tg.value.id, (None, None))[1] == "genedict":
+                ok_, kv = (True, tg.slice.value) if isinstance(tg.slice, ast.Constant) else self.const_of(tg.slice)
+                ft = {py: f_ for py, _, f_ in GENE_FIELDS}.get(kv) if ok_ else None
+                if ft is None:
+                    bad(st, f"item assignment {ast.unparse(tg)}")
+                env = copy.deepcopy(env)
+                env["locals"][tg.value.id][0][kv] = self.ex(v, env, want=ft)
+                return self.body(rest, env, ind)
             if isinstance(tg, ast.Name):
+                if any(t_ == "genedict" for _, t_ in env["locals"].values()) and tg.id in env["locals"]:
+                    bad(st, f"{tg.id} reassigned while a field dict captured values")
                 if isinstance(v, ast.Subscript) and is_self_attr(v.value, "_genes"):
                     key = ast.unparse(v.slice)
                     if key not in env["present"]:
@@ -364,7 +620,7 @@ class Translator:
                 else:
                     code, ty = self.ex(v, env)
                 env = copy.deepcopy(env)
-                var = f"v_{tg.id}"
+                var = self.var(tg.id)
                 env["locals"][tg.id] = (var, ty)
                 return f"{pad}let {var} : {LEAN_T[ty]} := {code}\n{self.body(rest, env, ind)}"
             if isinstance(tg, ast.Attribute) and isinstance(tg.value, ast.Name) and tg.attr == "approved" \
@@ -426,7 +682,7 @@ class Translator:
             if len(inner) != 1 or not isinstance(inner[0], ast.If) or inner[0].orelse \
                     or len(inner[0].body) != 1 or not isinstance(inner[0].body[0], ast.Return):
                 bad(st, "loop body is not `if <cond>: return <expr>`")
-            var = f"v_{st.target.id}"
+            var = self.var(st.target.id)
             env2 = copy.deepcopy(env)
             env2["locals"][st.target.id] = (var, "mut")
             c, t = self.ex(inner[0].test, env2)
@@ -441,8 +697,18 @@ class Translator:
     def method(self, m):
         self.cur = m
         ps = self.sig(m)
-        env = {"locals": {n: (("()" if t == "text" else f"p_{n}"), t) for n, t in ps}, "present": {}, "cb": None}
+        env = {"locals": {n: (("()" if t == "text" else f"p_{n}"), t) for n, t in ps}, "present": {}, "cb": None,
+               "retk": []}
+        for name, dflt in self.extra.items():
+            env["locals"][name] = (dflt, "const")
+        self.depth = 0
         return self.body(self.fns[m].body, env, 4)
+
+    def reason_of(self, node):
+        if isinstance(node, ast.Constant):
+            return node.value
+        ok_, v = self.const_of(node)
+        return v if ok_ else None
 
     # ------------------------------------------------------------------------------------------------ replicate
     def replicate(self):
@@ -480,7 +746,7 @@ class Translator:
                 bad(v, f"child constructed with {key}={ast.unparse(v)}")
         # genes handed to the constructor: exactly the parent's
         gv = kw.get("genes")
-        ok_src = {"list(self._genes.values())", "self._genes.values()"}
+        ok_src = {"list(self._genes.values())", "self._genes.values()", "tuple(self._genes.values())"}
         if gv is None:
             bad(ctor, "child constructed without genes")
         src = ast.unparse(gv)
@@ -518,8 +784,8 @@ class Translator:
                 if isinstance(recv, ast.Name) and recv.id == child:
                     if n.func.attr != "mutate":
                         bad(n, f"replicate calls child.{n.func.attr}")
-                    if len(n.args) != 3 or n.keywords or not isinstance(n.args[2], ast.Constant) \
-                            or n.args[2].value not in ("replication_mutation", "random_mutation"):
+                    if len(n.args) != 3 or n.keywords or self.reason_of(n.args[2]) not in (
+                            "replication_mutation", "random_mutation"):
                         bad(n, "child.mutate call shape")
                 if isinstance(recv, ast.Name) and recv.id == "self" and n.func.attr != "get_hash":
                     bad(n, f"replicate calls self.{n.func.attr}")
@@ -544,7 +810,8 @@ class Translator:
             bad(lp, "requested-mutations loop body is not a single call")
         call = inner[0].value
         if ast.unparse(call.func) != f"{child}.mutate" or len(call.args) != 3 \
-                or [ast.unparse(x) for x in call.args[:2]] != [a, b] or call.args[2].value != "replication_mutation":
+                or [ast.unparse(x) for x in call.args[:2]] != [a, b] \
+                or self.reason_of(call.args[2]) != "replication_mutation":
             bad(call, f"requested mutation applied by {ast.unparse(call)[:70]}")
         # every mutate call on the child in the method is either this one or the random pass's
         return "some ⟨" + ", ".join(gate) + "⟩", a, b
@@ -560,10 +827,10 @@ HEAD = ("import Operon.Model.Genome\n"
         "variable {ν : Type}\n\n")
 
 
-def render(src: str):
+def render(src: str, module=None):
     info = {"unsupported": {}, "methods": []}
     try:
-        tr = Translator(src)
+        tr = Translator(src, module)
         glob = None
     except (Unsupported, SyntaxError) as e:
         tr, glob = None, str(e)
@@ -651,12 +918,12 @@ def render(src: str):
     return out, info
 
 
-def run(repo: Path, lean_dir: Path, write_if_changed) -> list[dict]:
+def run(repo: Path, lean_dir: Path, write_if_changed, module=None) -> list[dict]:
     try:
         src = (Path(repo) / REL).read_text()
     except OSError:
         src = ""
-    text, info = render(src)
+    text, info = render(src, module)
     changed = write_if_changed(Path(lean_dir) / "Operon/Gen/GenomeTranslated.lean", text)
     return [{"id": "py2lean-genome", "facts_changed": bool(changed), "methods": info["methods"],
              "unsupported": info["unsupported"]}]
